@@ -164,3 +164,33 @@ NEUTRAL += [
     {"id": "n-skip-break-explicit", "props": ["C07", "C08"],
      "edits": [(DE, "                    if (peek_type() == CborType::BREAK) {\n                        m_p++;\n                        break;\n                    }", "                    if (peek_type() == CborType::BREAK) {\n                        read_break();\n                        break;\n                    }")]},
 ]
+
+FS = "src/format_specification.h"
+MUTANTS += [
+    # ---------------------------------------------------------------- C01
+    m("c01-generic-swap", "C01", "R01.3", [(B, "    gqr.response_size = qr.response_size;", "    gqr.response_size = qr.query_size;")], "read_generic_qr restores response_size from query_size"),
+    m("c01-wrong-table-read", "C01", "R01.3", [(B, "        gqr.query_name = get_name_rdata(*qr.query_name_index);", "        gqr.query_name = get_ip_address(*qr.query_name_index);")], "query name looked up in the ip-address table"),
+    m("c01-wrong-table-write", "C01", "R01.3", [(B, "            rpd.bailiwick_index = add_name_rdata(*gr.bailiwick);", "            rpd.bailiwick_index = add_ip_address(*gr.bailiwick);")], "bailiwick stored in the ip-address table"),
+    m("c01-key-renumber", "C01", "R01.2", [(FS, "        response_delay = 6,\n        query_name_index = 7,", "        response_delay = 7,\n        query_name_index = 6,")], "two QueryResponse keys renumbered consistently on both sides (invisible to write/read agreement)"),
+    m("c01-symmetric-swap", "C01", "R01.6", [(B, "        written += enc.write(get_map_index(CDNS::QueryResponseMapIndex::client_port));\n        written += enc.write(client_port.value());", "        written += enc.write(get_map_index(CDNS::QueryResponseMapIndex::transaction_id));\n        written += enc.write(client_port.value());"),
+                                             (B, "        written += enc.write(get_map_index(CDNS::QueryResponseMapIndex::transaction_id));\n        written += enc.write(transaction_id.value());", "        written += enc.write(get_map_index(CDNS::QueryResponseMapIndex::client_port));\n        written += enc.write(transaction_id.value());"),
+                                             (B, "            case get_map_index(QueryResponseMapIndex::client_port):\n                client_port = dec.read_unsigned();", "            case get_map_index(QueryResponseMapIndex::client_port):\n                transaction_id = dec.read_unsigned();"),
+                                             (B, "            case get_map_index(QueryResponseMapIndex::transaction_id):\n                transaction_id = dec.read_unsigned();", "            case get_map_index(QueryResponseMapIndex::transaction_id):\n                client_port = dec.read_unsigned();")],
+      "client_port and transaction_id swapped between their keys on both sides"),
+    m("c01-reader-member", "C01", "R01.1", [(B, "            case get_map_index(QueryResponseSignatureMapIndex::query_nscount):\n                query_nscount = dec.read_unsigned();", "            case get_map_index(QueryResponseSignatureMapIndex::query_nscount):\n                query_arcount = dec.read_unsigned();")], "nscount read into arcount"),
+    m("c01-kind", "C01", "R01.1", [(B, "                response_delay = dec.read_integer();", "                response_delay = dec.read_unsigned();")], "signed response_delay read with read_unsigned"),
+    m("c01-time-ref", "C01", "R01.4", [(B, "            written += mm.write(enc, m_block_preamble.earliest_time, m_block_parameters.storage_parameters.ticks_per_second);", "            written += mm.write(enc, Timestamp(), m_block_parameters.storage_parameters.ticks_per_second);")], "malformed messages written relative to the epoch instead of earliest_time"),
+    m("c01-time-rate", "C01", "R01.4", [(B, "            mm.time_offset->add_time_offset(offset, m_block_parameters.storage_parameters.ticks_per_second);", "            mm.time_offset->add_time_offset(offset, DEFAULT_TICKS_PER_SECOND);")], "offset restored with the default rate instead of the block's"),
+    m("c01-aec-miss", "C01", "R01.5", [(B, "        found->second++;\n    else\n        m_address_event_counts[aec] = 1;\n\n    // Update block statistics", "        found->second++;\n    else\n        m_address_event_counts[aec] = 0;\n\n    // Update block statistics")], "first occurrence of an address event counted as 0"),
+    m("c01-mm-payload-text", "C01", "R01.2", [(B, "        written += enc.write_bytestring(mm_payload.value());", "        written += enc.write_textstring(mm_payload.value());"), (B, "                mm_payload = dec.read_bytestring();", "                mm_payload = dec.read_textstring();")],
+      "mm-payload written and read as text string (RFC: bstr)"),
+    # ---------------------------------------------------------------- C09
+    m("c09-wrong-member", "C09", "R09.1", [(FP, "                sampling_method = dec.read_textstring();", "                anonymization_method = dec.read_textstring();")], "sampling-method read into anonymization_method"),
+    m("c09-narrow", "C09", "R09.4", [(FP, "            written += enc.write(id);", "            written += enc.write(static_cast<uint8_t>(id));")], "VLAN ids narrowed to 8 bits on the way out"),
+    m("c09-revert-f9", "C09", "R09.2", [(FP, "    // Private version is optional: it is set only if the input contains it\n    m_private_version = boost::none;\n", "")], "absent private version reads back as 1 (reverted F9)"),
+    m("c09-kind", "C09", "R09.1", [(FP, "                promisc = dec.read_bool();", "                promisc = dec.read_unsigned();")], "promisc written as simple value, read with read_unsigned"),
+    m("c09-missing-case", "C09", "R09.1", [(FP, "            case get_map_index(CollectionParametersMapIndex::host_id):\n                host_id = dec.read_textstring();\n                break;\n", "")], "host-id never read back"),
+    m("c09-empty-cp", "C09", "R09.3", [(FP, "                         + !!server_address.size() + !!vlan_ids.size() + !!filter + !!generator_id + !!host_id;\n\n    std::size_t written = 0;", "                         + !!server_address.size() + !!vlan_ids.size() + !!filter + !!generator_id + !!host_id;\n\n    if (fields == 0)\n        return 0;\n\n    std::size_t written = 0;")], "empty collection parameters written as nothing (reverted F1)"),
+    m("c09-list-front", "C09", "R09.5", [(FP, "                    interfaces.push_back(dec.read_textstring());", "                    interfaces.insert(interfaces.begin(), dec.read_textstring());")], "interfaces read back in reverse order"),
+    m("c09-key", "C09", "R09.1", [(FS, "        sampling_method = 10,\n        anonymization_method = 11,", "        sampling_method = 11,\n        anonymization_method = 10,")], "storage-parameter keys renumbered"),
+]
